@@ -107,9 +107,11 @@ Proof. unfold go_form. destruct (length lbl <? 8)%nat; exact I. Qed.
 
 Section Codec.
 Variable V : Type.
-Variable venc : V -> bits.
-Variable vdec : bits -> option (V * bits).
-Hypothesis vcodec : forall v rest, vdec (venc v ++ rest) = Some (v, rest).
+Variable venc : V -> bits * list cell.
+Variable vdec : bits -> list cell -> option V.
+(* Unmarshal of what Marshal appended to the leaf (bits and references) gives
+   the value back; the value is in tail position, nothing follows it *)
+Hypothesis vcodec : forall v, vdec (fst (venc v)) (snd (venc v)) = Some v.
 
 (** ** decoding the serialisation of any Patricia tree, any label forms *)
 Lemma map_inner_cells (t : apt V) : forall N m prefix c,
@@ -124,7 +126,7 @@ Proof.
     rewrite load_label_enc by (auto; lia). cbn [bind].
     replace (length (prefix ++ lbl) <? N)%nat with false
       by (symmetry; apply Nat.ltb_ge; rewrite app_length; lia).
-    unfold vdec_res. rewrite <- (app_nil_r (venc v)), vcodec. cbn [bind fst].
+    unfold vdec_res. rewrite vcodec. cbn [bind].
     rewrite firstn_all2 by (rewrite app_length; lia). reflexivity.
   - cbn [cells_of] in Hc.
     apply bind_ok in Hc. destruct Hc as (lc & Hlc & Hc).
